@@ -1,6 +1,6 @@
 (** C11 — handler timeouts abandon exactly the invocations that exceed the limit.
     Statements only; proofs live in Inv/. *)
-From Hannibal Require Import Model.Sys Inv.C11 Inv.C11b Chk.C11.
+From Hannibal Require Import Model.Sys Inv.C11 Inv.C11b Chk.C11 Inv.C11c.
 
 (** On every execution the model accepts, on the virtual clock: an invocation is abandoned only
     when a timeout t is configured for a plain (not stream-attached) actor and at least t has
@@ -34,3 +34,29 @@ Theorem C11_abandoned_exactly_at_the_limit :
   exists d, a_phase x = PhHandle o (Some d) /\ now s = d.
 Proof. exact abandoned_at_the_limit. Qed.
 Print Assumptions C11_abandoned_exactly_at_the_limit.
+
+(** A caller that stops waiting for a call (drops the call's future) ends only its own
+    operation: no actor, mailbox, handle, join future, registry entry or other operation
+    changes - so the message stays where it is, its handler runs like any other, to its end or
+    to its own limit, and never because the caller went away. *)
+Theorem C11_giving_up_on_a_call_changes_nothing_at_the_actor :
+  forall s o s', step s (EvAbandon o) = Acc s' ->
+  actors s' = actors s /\ handles s' = handles s /\ joins s' = joins s /\ reg s' = reg s /\ now s' = now s
+  /\ (forall o', o' <> o -> ops s' o' = ops s o')
+  /\ exists p, ops s o = Some p /\ op_done p = false /\ op_k p = XCall /\ op_imm p = None
+       /\ ops s' o = Some (set_op_done true p).
+Proof. exact abandon_frame. Qed.
+Print Assumptions C11_giving_up_on_a_call_changes_nothing_at_the_actor.
+
+(** the model accepts a caller that gives up while its call is being handled and the handler
+    running on to its end; it rejects that handler being abandoned (no timeout applies), and it
+    rejects an answer still being delivered to the caller that went away *)
+Example C11_giving_up_is_accepted_abandoning_the_handler_is_not :
+  let c := {| sc_bound := None; sc_timeout := None; sc_failto := false; sc_strat := RestartOnly;
+              sc_stream := false; sc_entry := 2; sc_ty := 0 |} in
+  let pre := [EvSpawn 0 c; EvHandle 0 0 KAddr; EvCbBegin 0 CbStarted; EvCbEnd 0 CbStarted CbOk;
+              EvOp 1 0 0 OCall 0 0; EvDeq 0 PkTask; EvHBegin 0 1; EvAbandon 1] in
+  accepts (pre ++ [EvHEnd 0 1 HCompleted]) = true
+  /\ accepts (pre ++ [EvHEnd 0 1 HAbandoned]) = false
+  /\ accepts (pre ++ [EvRet 1 (ROkV [])]) = false.
+Proof. vm_compute. auto. Qed.
